@@ -142,6 +142,8 @@ KANI = {
         K("c17::p_c17_operator", "as above", "DynOperator"),
         K("c17::p_c17_child_maker", "as above", "DynChildMaker"),
         K("c17::p_c17_boxed_error", "default erased error type Box<dyn Error + Send + Sync>", "DynSelector / DynMutator", min_covers=0),
+        K("c17::p_c17_zero_sized", "zero-sized genome / input type (); 7 pointer kinds x {no auto traits, Send + Sync}", "DynMutator / DynRecombinator / DynOperator on a zero-sized type"),
+        K("c17::p_c17_repeated", "80 consecutive calls on one erased value, failing / succeeding by a symbolic pattern of period 3", "DynOperator / DynMutator / DynRecombinator: no state between calls"),
     ],
     "C18": [
         K("c18::p_c18_collection", "sizes 0..=3, " + RNG, "collection::Generator (owning and borrowing), population size"),
@@ -160,6 +162,9 @@ KANI = {
         K("c19::p_c19_values_int", "3 int values; maximum 0..=3", "with_int_values: first supplied on top, overflow; generated accessors"),
         K("c19::p_c19_values_bool_float", "2 bool, 1 float value; maximum 2", "with_bool_values / with_float_values; generated accessors"),
         K("c19::p_c19_inputs", "2 named inputs, two declaration orders", "with_<stack>_input order independence (state equality)", "thorough"),
+        K("c19::p_c19_alt_sizes", "second state type AltState (hook; renamed builder stacks, other field order, exec field `work`): all usize sizes / step limits; 3 call orders (loop-free)", "with_max_stack_size / with_flags_max_size / with_counters_max_size; generated accessors address their fields (pointer equality)", complete=True),
+        K("c19::p_c19_alt_values", "AltState: 3 int values through with_counters_values; maximum 0..=3", "with_<renamed>_values: first supplied on top, overflow"),
+        K("c19::p_c19_alt_flags", "AltState: 2 bool values through with_flags_values; maximum 2", "with_<renamed>_values"),
     ],
     "PUSH": [
         K("c01::p_c01_int_add", "lean state (real Stack<T>s), one operand short and one spare beneath, maxima depth..=depth+1, all operand values", "int instruction add", "quick", panic_props=["C03"]),
@@ -227,6 +232,8 @@ KANI = {
         K("c01::p_c01_float_add", "lean state (real Stack<T>s), one operand short and one spare beneath, maxima depth..=depth+1, all operand values", "float instruction add", "thorough", panic_props=["C03"]),
         K("c01::p_c01_float_subtract", "lean state (real Stack<T>s), one operand short and one spare beneath, maxima depth..=depth+1, all operand values", "float instruction subtract", "quick", panic_props=["C03"]),
         K("c01::p_c01_float_divide", "lean state (real Stack<T>s), one operand short and one spare beneath, maxima depth..=depth+1, all operand values", "float instruction divide", "quick", panic_props=["C03"]),
+        K("c01::p_c01_block", "blocks of 0..=2 elements onto an exec stack of depth 0..=2, maximum from full to fitting; tiny instruction type (the generic impl<S, I> Instruction<S> for Vec<I>)", "block unfolding", panic_props=["C03"]),
+        K("c04::p_c04_bulk", "prior depth 0..=2, 0..=3 items, maximum depth-1..=depth+1, exact-size and plain iterators", "Stack::push_many / try_extend (block unfolding and the builder rely on its assumed contract)"),
     ],
     "C05": [
         K("c05::p_c05_num_opens", "all six instruction kinds used by the parser harness", "NumOpens: DupBlock / When / Unless = 1, IfElse = 2, others 0"),
@@ -287,7 +294,7 @@ PROPS = {
     },
 }
 
-for _pid in ("C06", "C07", "C10", "C11", "C12", "C13", "C14", "C15", "C16", "C17", "C18"):
+for _pid in ("C06", "C10", "C11", "C12", "C13", "C14", "C15", "C16", "C17", "C18"):
     PROPS[_pid] = {"steps": [run_kani_property], "level": "model_checking", "kani": KANI[_pid], "explanation": KANI_EXPL, "assumptions": KANI_ASSUME}
 
 PROPS["C19"] = {"templates": PRELUDE + STD + STACK + ["20_plumbing.vrs", "30_state.vrs", "88_builder.vrs"] + MAIN, "expand": True, "extern": True,
@@ -329,9 +336,39 @@ PROPS["C08"] = {"templates": PRELUDE + ["86_ec_lexicase.vrs"] + MAIN, "expand": 
                                 "the result type's order is a lawful total order (precondition `lawful::<Res>()`; inherited by Score / Error from their payload, C15)",
                                 "vstd's models of Vec, slices (split_first, first, get, is_empty), ranges/collect, mem::swap and for-loops over them; Option::copied contract"]}
 
+# C07: Verus for Best / Worst / Tournament (generic individual type with a lawful total order, any population, any k) + the Kani harnesses on the real rand code
+PROPS["C07"] = {"templates": PRELUDE + ["87_ec_selectors.vrs"] + MAIN, "extern": True, "steps": [run_verus_property, run_kani_property], "level": "proof",
+                "kani": KANI["C07"],
+                "explanation": "Verus: the real select() bodies of Best, Worst, Random and Tournament (instantiated at Vec<I>, I any type with a lawful total order) are proved to return a maximal / "
+                               "minimal member, resp. the best of the k pairwise distinct members the stream draws (TournamentSizeError exactly when the population is smaller than k); lemmas: "
+                               "the winner is at least as good as k-1 OTHER members, a tournament over the whole population returns a maximal member, a tournament of size 1 returns the one "
+                               "drawn member. Kani: the compiled selectors on the real rand sampler, see `bounded`.",
+                "assumptions": KANI_ASSUME + ["Iterator::max / min return a maximal / minimal element (vx_iter_max / vx_iter_min / VxRefs stand-ins whose bodies are those calls)",
+                                              "IndexedRandom::choose_multiple(rng, k) yields min(k, len) elements at pairwise distinct positions determined by the stream state, IndexedRandom::choose an in-range one "
+                                              "(VxSlice / vx_choose stand-ins whose bodies are those calls); that every k-subset / position is equally likely is rand's contract, assumed",
+                                              "the individuals' order is a lawful total order (precondition `lawful::<I>()`; proved for EcIndividual / TestResults / Score / Error from their payload under C15)"]}
+
 # C06: Verus for the combination selectors (Weighted, WeightedPair) and Lexicase; Kani for membership-by-address, the remaining selectors and the no-panic clause
-PROPS["C06"] = {"template_sets": [PRELUDE + ["82_ec_weighted.vrs"] + MAIN, PRELUDE + ["86_ec_lexicase.vrs"] + MAIN], "expand": ["ec-core"], "extern": True,
+PROPS["C06"] = {"template_sets": [PRELUDE + ["82_ec_weighted.vrs"] + MAIN, PRELUDE + ["86_ec_lexicase.vrs"] + MAIN, PRELUDE + ["87_ec_selectors.vrs"] + MAIN], "expand": ["ec-core"], "extern": True,
                 "steps": [run_verus_multi, run_kani_property], "level": "model_checking", "kani": KANI["C06"],
                 "explanation": KANI_EXPL + " Verus (unbounded): Weighted::select / WeightedPair::select return a member's selection or exactly ZeroWeight / the member's error; "
-                               "Lexicase::select returns population[i] for a surviving i or exactly EmptyPopulation / MissingTestCase (see C08, C13).",
+                               "Lexicase::select returns population[i] for a surviving i or exactly EmptyPopulation / MissingTestCase; Best / Worst / Random / Tournament return population[i] "
+                               "for an in-range i or exactly EmptyPopulation / TournamentSizeError (see C07, C08, C13).",
                 "assumptions": KANI_ASSUME}
+
+# C16: self-composition harnesses (Kani) + the functional contracts proved elsewhere (Verus): a function whose result and
+# final stream state are proved EQUAL TO A SPEC FUNCTION of (arguments, stream state) cannot depend on anything else
+PROPS["C16"] = {"template_sets": [PRELUDE + ["82_ec_weighted.vrs"] + MAIN, PRELUDE + ["84_ec_operators.vrs"] + MAIN, PRELUDE + ["86_ec_lexicase.vrs"] + MAIN, PRELUDE + ["87_ec_selectors.vrs"] + MAIN, PUSH],
+                "expand": ["ec-core", "push"], "extern": True,
+                "steps": [run_verus_multi, run_kani_property], "level": "model_checking", "kani": KANI["C16"],
+                "explanation": KANI_EXPL + " Verus (unbounded): Weighted / WeightedPair::select, the operator combinators, Lexicase / Best / Worst / Random / Tournament::select and PushState::run_to_completion are each proved "
+                               "equal to a spec function of their arguments and the stream state (resp. of the abstract machine state), hence deterministic; a failure of one of those "
+                               "contracts is reported under its own property and leaves C16 undecided.",
+                "assumptions": KANI_ASSUME + ["the Verus contracts model a generator by its abstract state rng_state(rng) and rand's shuffle / Bernoulli sampling as functions of that state"]}
+
+# C10: Verus for the Bitstring exchange primitives + the Kani harnesses for the recombinators
+PROPS["C10"] = {"templates": PRELUDE + ["90_ec_linear.vrs"] + MAIN, "extern": True, "steps": [run_verus_property, run_kani_property], "level": "model_checking",
+                "kani": KANI["C10"],
+                "explanation": KANI_EXPL + " Verus (unbounded, all lengths / indices / ranges): Bitstring::crossover_gene and crossover_segment return Err and change nothing exactly when "
+                               "the index / range leaves either genome, and otherwise swap exactly the addressed genes.",
+                "assumptions": KANI_ASSUME + ["<[T]>::swap_with_slice, Range::clone and Vec::get_mut(range) contracts (assumed std behaviour)"]}
